@@ -190,6 +190,18 @@ impl Hostile {
     }
     self.w.lose_reader(1);
     let _ = rport(1);
+    // the matched reader in whose name the bad input may have come goes on with an ordinary request:
+    // state the bad input left behind in its proxy must not make the repair machinery panic or spin
+    // (the watchdog catches the latter)
+    let (first, last) = self.w.first_last();
+    if last >= first && last > 0 {
+      self.w.acknack(0, first.max(1), &[first.max(1)]);
+      for _ in 0..4 {
+        self.w.repair(0);
+        self.w.repair_frags(0);
+      }
+      let _ = self.w.out();
+    }
     Ok(())
   }
 }
